@@ -187,7 +187,12 @@ class DashOption:
     def int_or_none_from_string(value: str) -> int | None:
         if value in {None, '', 'none'}:
             return None
-        return int(value, 10)
+        rv: int = int(value, 10)
+        if abs(rv) > 0x7FFFFFFF:
+            # these options are counts or a number of seconds. Larger values
+            # can not be turned into a timedelta
+            raise ValueError(f'{value} is out of range')
+        return rv
 
     @staticmethod
     def float_or_none_from_string(value: str) -> float | None:
